@@ -232,3 +232,20 @@ def mentions(node, *names):
         if isinstance(x, ast.Attribute) and x.attr in names:
             return True
     return False
+
+
+def iteration_can_skip(v, loop_ast, targets):
+    """Can one iteration of `loop_ast` go from the loop head round to the head again without passing a node in targets?
+    (Leaving the function or the loop does not count.)"""
+    head = v.cfg.node_of(loop_ast)
+    targets = set(targets)
+    seen, stack = set(), [m for (m, l) in v.cfg.succ[head] if l is True]
+    while stack:
+        x = stack.pop()
+        if x in seen or x in targets:
+            continue
+        if x is head:
+            return True
+        seen.add(x)
+        stack.extend(m for (m, l) in v.cfg.succ[x] if l != "exc" and m is not v.cfg.exit and m is not v.cfg.raise_exit)
+    return False
